@@ -62,7 +62,7 @@ m = {
    'guard': 'BUGSENG_PPL_VERIF',
    'enable': '-DBUGSENG_PPL_VERIF on every out-of-tree compile of /repo/src, of the regenerated C interface and of the engines (mk/build.mk BASEFLAGS)',
    'baseline_off_cmd': 'cd /repo && make -k check',
-   'source_commits': ['a07142c', 'c427e19'],
+   'source_commits': [],
    'add_only': True,
  },
  'engines': [{'name': e, 'path': 'engines/%s.cc' % e, 'serves_properties': sorted(ps),
